@@ -67,7 +67,7 @@ _L = pick(2, 3)  # symbolic str length bound
 BOUNDS = (
     "dataclass shapes generated from {int,bool,str,Enum(value!=name),Optional (field and element position),list,"
     "frozenset,dict[K,.] with K in {str,int,Enum},"
-    "nested dataclass,defaults,Transient} to nesting depth %d (quick: fixed selection of 35; thorough: all, %s); "
+    "nested dataclass,defaults (incl. non-None defaults of Optional fields, on top-level and on nested dataclasses),Transient} to nesting depth %d (quick: fixed selection of 40; thorough: all, %s); "
     "instances: unbounded ints, any bool, any str of len<=%d, any enum member (3), container lengths 0..2, "
     "None in every Optional position; map keys: a top-level map of scalars/enums has two independent symbolic "
     "keys, any other map has two constant distinct keys of its key type ('k0','k1' / 0,1 / RED,GREEN); depth-3 shapes: the outermost container "
@@ -469,6 +469,19 @@ def O(x: tuple) -> tuple:  # noqa: E743
 
 LEAF = _define("Leaf", [("a", INT), ("s", STR), ("c", ENUM)])
 MID = _define("Mid", [("leaf", LEAF), ("xs", L(INT)), ("o", O(LEAF))])
+# A nestable dataclass whose fields carry *defaults*, including Optional fields whose default is not None:
+# an explicit None / non-default value must survive in every nested position (the defaults dimension applies
+# to nested dataclasses as well as to the top-level one).
+LEAFD = _define(
+    "LeafD",
+    [
+        ("a", INT),
+        ("o", O(INT), ("value", 10)),
+        ("c", O(ENUM), ("value", Color.GREEN)),
+        ("s", STR, ("value", "dflt")),
+    ],
+)
+MIDD = _define("MidD", [("leaf", LEAFD), ("inner", O(LEAFD), ("value", None)), ("n", INT, ("value", 3)), ("t", INT, ("transient", 0))])
 
 SHAPES: list[dict] = []  # {"name", "expr" (a "dc" expr), "quick": bool}
 
@@ -494,10 +507,23 @@ def _make_shapes() -> None:
             ("s", STR, ("value", "dflt")),
             ("c", ENUM, ("value", Color.GREEN)),
             ("o", O(INT), ("value", None)),
+            ("on", O(INT), ("value", 10)),
+            ("oc", O(ENUM), ("value", Color.BLUE)),
             ("xs", L(INT), ("factory", list)),
         ],
         True,
     )
+    # defaults inside nested dataclasses, in every nesting position
+    _single(LEAFD, True)
+    _single(O(LEAFD), True)
+    _single(L(LEAFD), True)
+    _single(D(LEAFD), True)
+    _single(F(LEAFD), False)
+    _single(MIDD, True)
+    _single(D(LEAFD, ENUM), False)
+    _single(L(O(LEAFD)), False)
+    _single(L(L(LEAFD)), False)
+    _single(D(L(LEAFD)), False)
     _shape("transient", [("i", INT), ("s", STR), ("t", INT, ("transient", 0)), ("d", INT, ("value", 3))], True)
     _single(O(L(INT)), True)
     _single(O(D(INT)), True)
